@@ -33,6 +33,7 @@ fn cfg() -> BroadCfg {
         max_fields: 5,
         help: HelpGen::Markers,
         version: true,
+        usage_fallback: true,
         ..BroadCfg::default()
     }
 }
@@ -258,6 +259,64 @@ impl Prop for C11 {
             || odd_argv0
         {
             ctx.nontrivial(fnv_str(&format!("{:?}{:?}{:?}", case.level, case.argv, case.argv0)));
+        }
+        // stdout with status 0 is for help, version and completion: something on the line must
+        // have asked for it (a help or version flag of some level left of `--`), or a level with
+        // fallback_to_usage got no item at all
+        if let Outcome::Stdout { text, .. } = &predicted {
+            let left_end = case
+                .argv
+                .iter()
+                .position(|a| a.as_slice() == b"--")
+                .unwrap_or(case.argv.len());
+            let mut request_names: Vec<Vec<u8>> = Vec::new();
+            let mut usage_fallback = false;
+            let mut cmd_names: Vec<Vec<u8>> = Vec::new();
+            for (_, l) in crate::props::c10::levels_with_paths(&case.level) {
+                for x in l.info.help_longs().iter().chain(l.info.version_longs().iter()) {
+                    request_names.push(format!("--{}", x).into_bytes());
+                }
+                for x in l.info.help_shorts().iter().chain(l.info.version_shorts().iter()) {
+                    request_names.push(format!("-{}", x).into_bytes());
+                }
+                usage_fallback |= l.info.fallback_to_usage;
+            }
+            for c in case.level.body.commands(true) {
+                for n in c.all_names() {
+                    cmd_names.push(n.into_bytes());
+                }
+            }
+            let asked = case.argv[..left_end].iter().any(|a| {
+                request_names.contains(a)
+                    // a short help/version flag inside a cluster
+                    || (a.len() > 2
+                        && a[0] == b'-'
+                        && a[1] != b'-'
+                        && request_names.iter().any(|r| {
+                            r.len() >= 2 && r[0] == b'-' && r[1] != b'-' && {
+                                let body = String::from_utf8_lossy(&a[1..]).into_owned();
+                                let c = String::from_utf8_lossy(&r[1..]).into_owned();
+                                body.contains(&c)
+                            }
+                        }))
+            });
+            // a level entered through its command name may see no item of its own while options
+            // of the enclosing level stand to its right: only lines without any command name
+            // are judged here
+            let nothing_typed = case.argv.is_empty()
+                || case.argv.iter().any(|a| cmd_names.contains(a))
+                || case.argv.iter().all(|a| a.as_slice() == b"--");
+            if !asked && !(usage_fallback && nothing_typed) {
+                return Verdict::fail(
+                    "stdout-and-success-without-a-request",
+                    format!(
+                        "{} on {:?}: no help or version flag on the line, yet the outcome is stdout/0:\n{}",
+                        show_level(&case.level),
+                        show_argv(&case.argv),
+                        text
+                    ),
+                );
+            }
         }
         if let Outcome::Stderr(t) = &predicted {
             if t.trim().is_empty() {
